@@ -1106,3 +1106,67 @@ def rule_G12(prog):
                        "distance from the END are `a.rev().zip(b.rev())`" % t.get("src", "zip(..).rev()")[:80],
                        file=fn.file, line=t["line"])
     return r
+
+
+# ------------------------------------------------------------------ G13: the items a slide takes from one Equal run go to another
+def rule_G13(prog):
+    r = RuleResult("G13", "a slide conserves the equal items it moves: where shift_diff_ops_up/down takes S items away from an "
+                          "Equal neighbour (`shrink_left/shrink_right(S)` with S a measured common length), every path from the "
+                          "measurement to that call first hands S items to another Equal op -- `grow_left/grow_right(S)` of a "
+                          "neighbour or the insertion of a new `Equal { len: S }` -- on ALL paths (an `if let Some(prev)` without "
+                          "an `else` loses the items when there is no previous op)")
+    from .guard import strip
+    for fn in prog.user_fns():
+        if not fn.mir or not fn.module.startswith("algorithms::compact"):
+            continue
+        m = fn.mir
+
+        def measured(op):
+            for amt in _alternatives(m, m.resolve_operand(op)):
+                a = strip(m.expand(amt, depth=4))
+                if isinstance(a, tuple) and a and a[0] == "call" and a[1].rsplit("::<", 1)[0].endswith(("common_prefix_len", "common_suffix_len")):
+                    return a
+            return None
+
+        gives = []      # blocks that hand a measured amount to an Equal op
+        takes = []      # (block, terminator, measured call term)
+        for bb, t in m.calls():
+            c = m.callee(t) or {}
+            p = c.get("path", "")
+            if p in ("types::DiffOp::grow_left", "types::DiffOp::grow_right") and len(t["args"]) > 1 and measured(t["args"][1]) is not None:
+                gives.append(bb)
+            elif p in ("types::DiffOp::shrink_left", "types::DiffOp::shrink_right") and len(t["args"]) > 1:
+                ms = measured(t["args"][1])
+                if ms is not None:
+                    takes.append((bb, t, ms))
+            elif p == "std::vec::Vec::<T, A>::insert" and _mentions_diffop(c.get("args")) and len(t["args"]) > 2:
+                v = strip(m.expand(m.resolve_operand(t["args"][2]), depth=3))
+                if isinstance(v, tuple) and v and v[0] == "aggregate" and str(v[1]).endswith("DiffOp::Equal"):
+                    ln = v[2].get("len")
+                    if ln is not None:
+                        # the new Equal op's length is built from the measured amount (whether it is the right amount is
+                        # A4's / F16's business: the Delete arm's `old_range.len() - suffix_len` is the reviewed dead code)
+                        from .cursor import _contains_call
+                        a = m.expand(ln, depth=4)
+                        if _contains_call(a, "common_prefix_len") or _contains_call(a, "common_suffix_len") or \
+                                any(_contains_call(m.expand(x, depth=4), "common_prefix_len") or _contains_call(m.expand(x, depth=4), "common_suffix_len")
+                                    for x in _alternatives(m, ln)):
+                            gives.append(bb)
+        for bb, t, ms in takes:
+            r.instances += 1
+            # the measuring call block: the single definition site of the measured value
+            mb = ms[4] if len(ms) > 4 and isinstance(ms[4], int) else None
+            if mb is None:
+                r.ob(True, "%s: `%s` line %d: measurement site not resolved" % (fn.path, t.get("src", ""), t["line"]))
+                continue
+            start = m.blocks[mb]["term"].get("target")
+            reach = m.reach_from([start] if start is not None else [], stop=tuple(gives) + (mb,))
+            ok = bb not in reach
+            r.ob(ok, "%s: `%s` line %d: the %d give site(s) cut every path from the measurement: %s" % (fn.path, t.get("src", "")[:50], t["line"], len(gives), ok))
+            if not ok:
+                r.find(fn.path, "slid-items-lost:%s" % (m.callee(t)["path"].rsplit("::", 1)[-1]),
+                       "`%s` takes the measured common items away from an Equal op, but a path from the measurement (line %d) reaches "
+                       "it without a grow_left/grow_right of a neighbour or the insertion of a new Equal op of that length: on "
+                       "that path the items vanish from the script" % (t.get("src", "")[:70], m.blocks[mb]["term"].get("line", 0)),
+                       file=fn.file, line=t["line"])
+    return r
